@@ -1,4 +1,5 @@
-HOOK_COMMITS = ["606ee9b verif hooks: des-cqueue allocator observer, page-size constructor, snapshots (cfg petrichorit_des_verif)"]
+HOOK_COMMITS = ["606ee9b verif hooks: des-cqueue allocator observer, page-size constructor, snapshots (cfg petrichorit_des_verif)",
+                "9c2f286 verif hooks: build verif_with_page_size from CQueue::new (cfg petrichorit_des_verif)"]
 NOT_APPLICABLE = {}
 _T = "machine-checked proof (Lean 4) of an executable model + differential correspondence check against the Rust implementation"
 META = {
